@@ -7,6 +7,7 @@ import (
 	"path/filepath"
 	"sort"
 	"strings"
+	"time"
 
 	simrt "github.com/douban/gobeansdb/zzsimrt"
 )
@@ -35,6 +36,8 @@ type snapshot struct {
 	Issued [][]issued // per key: all writes issued so far (acknowledged or in flight)
 	PreGC  [][]Alt    // C07: model state of every key when the enclosing pass started
 	Stale  bool       // C07: a data file rewritten in place still carries its stale tail
+	Kind2  string     // second life: how it was killed
+	Ops2   int        // second life: operations issued
 }
 
 type crashExec struct {
@@ -285,12 +288,44 @@ func (c *crashExec) durableView(dir string) (byKey map[string][]durableRec, part
 	return
 }
 
-func (c *crashExec) recover(s *snapshot) {
+// recover opens the store on the snapshot directory and reads every key back. For C06, in a
+// fraction of the snapshots, the recovered process then goes on (gen == 1): a few more writes,
+// flushes and hint dumps, and a *second* kill (at a drawn file-system event of the continuation,
+// possibly tearing a data write, or at its end), followed by a second recovery that is checked
+// against everything issued in both lives (gen == 2, extra = the writes of the second life).
+func (c *crashExec) recover(s *snapshot) { c.recoverGen(s, 1, nil) }
+
+func (c *crashExec) recoverGen(s *snapshot, gen int, extra [][]issued) {
 	x := c.x
 	plan := x.plan
 	c.cases++
 	sim2 := NewSim(plan.Cfg, s.Dir, x.sim.Tape)
 	sim2.Cfg.Background = false
+	issuedAll := s.Issued
+	if extra != nil {
+		issuedAll = make([][]issued, len(s.Issued))
+		for k := range s.Issued {
+			issuedAll[k] = append(append([]issued(nil), s.Issued[k]...), extra[k]...)
+		}
+	}
+	// what is durable at the kill, per bucket (scanned before recovery touches the files)
+	partial := false
+	partialWhere := ""
+	durable := map[string][]durableRec{}
+	for _, b := range plan.Cfg.Served {
+		d, p, pw := c.durableView(sim2.bucketDir(b))
+		for k, v := range d {
+			durable[k] = v
+		}
+		if p {
+			partial = true
+			partialWhere = pw
+		}
+	}
+	rr := NewRng(plan.Seed ^ uint64(s.Seq)*0x9e3779b97f4a7c15 ^ uint64(s.Torn+7)*0x51ed27)
+	second := gen == 1 && c.prop == "C06" && !s.InGC && rr.Bool(1, 3)
+	var issued2 [][]issued
+	killed2 := ""
 	type result struct {
 		hit   bool
 		val   []byte
@@ -319,6 +354,9 @@ func (c *crashExec) recover(s *snapshot) {
 			}
 		}
 		done = true
+		if second && !budget {
+			c.secondLife(g, sim2, cl, rr, &issued2, &killed2)
+		}
 	})
 	x.out.Steps += sim2.Steps
 	x.out.SimNS += sim2.SimNS
@@ -327,21 +365,10 @@ func (c *crashExec) recover(s *snapshot) {
 		return
 	}
 	desc := fmt.Sprintf("crash point: fs event #%d (%s, torn=%d) during op #%d", s.Seq, s.Kind, s.Torn, s.OpID)
-	refused := g.OpenErr != nil || res.Status == simrt.StatusFatal
-	// what is durable, per bucket
-	partial := false
-	partialWhere := ""
-	durable := map[string][]durableRec{}
-	for _, b := range plan.Cfg.Served {
-		d, p, pw := c.durableView(sim2.bucketDir(b))
-		for k, v := range d {
-			durable[k] = v
-		}
-		if p {
-			partial = true
-			partialWhere = pw
-		}
+	if gen == 2 {
+		desc = fmt.Sprintf("second crash (%s) after recovery from fs event #%d (%s, torn=%d) of op #%d and %d further operations", s.Kind2, s.Seq, s.Kind, s.Torn, s.OpID, s.Ops2)
 	}
+	refused := g.OpenErr != nil || (res.Status == simrt.StatusFatal && !done)
 	c.dcases[fmt.Sprintf("%s/%d/%v/%d", s.Kind, len(durable), partial, s.Torn%256)] = true
 	if os.Getenv("VERIF_DEBUG") != "" {
 		fmt.Fprintf(os.Stderr, "SNAP seq=%d kind=%s torn=%d files=%v refused=%v status=%s\n", s.Seq, s.Kind, s.Torn, listFiles(s.Dir), refused, res.String())
@@ -367,10 +394,15 @@ func (c *crashExec) recover(s *snapshot) {
 		x.failSub("R-crash-refused-without-partial", sub, fmt.Sprintf("%s: the store refused to start (%s) although no data file ends in a partially written record", desc, trunc(msg, 300)))
 		return
 	}
-	if res.Status != simrt.StatusDone || !done {
+	if done && second && res.Status == simrt.StatusKilled {
+		// the second life was killed where the harness decided
+	} else if res.Status != simrt.StatusDone || !done {
 		if res.Status == simrt.StatusStepCap {
 			x.out.Inconclusive = "stepcap-recovery"
 			return
+		}
+		if done && second {
+			desc += " (in the second life, after a successful recovery)"
 		}
 		x.failSub("R-crash-recovery-"+simrt.StatusName(res.Status), "", fmt.Sprintf("%s: recovery ended with %s", desc, res.String()+"\n"+trunc(res.Stack, 1200)))
 		return
@@ -410,7 +442,7 @@ func (c *crashExec) recover(s *snapshot) {
 		// position of the newest durable record in the issue order of this key
 		nd := -1
 		if newest != nil && newest.Rec.Ver > 0 {
-			for i, w := range s.Issued[k] {
+			for i, w := range issuedAll[k] {
 				if !w.Tomb && !w.Incr && bytes.Equal(w.Val, newest.Val) {
 					nd = i
 				}
@@ -421,7 +453,7 @@ func (c *crashExec) recover(s *snapshot) {
 		}
 		if !r.hit {
 			laterDelete := false
-			for i, w := range s.Issued[k] {
+			for i, w := range issuedAll[k] {
 				if w.Tomb && i > nd {
 					laterDelete = true
 				}
@@ -439,7 +471,7 @@ func (c *crashExec) recover(s *snapshot) {
 		}
 		// a value was served: it must be a value really issued for this key ...
 		okIssued := false
-		for _, w := range s.Issued[k] {
+		for _, w := range issuedAll[k] {
 			if !w.Tomb && !w.Incr && bytes.Equal(w.Val, r.val) {
 				okIssued = true
 			}
@@ -449,7 +481,7 @@ func (c *crashExec) recover(s *snapshot) {
 		}
 		if !okIssued {
 			rule := "R-crash-wrong-value"
-			for j, other := range s.Issued {
+			for j, other := range issuedAll {
 				if j == k {
 					continue
 				}
@@ -475,6 +507,93 @@ func (c *crashExec) recover(s *snapshot) {
 			x.failSub("R-crash-older-than-durable", "", fmt.Sprintf("%s: served %q but the newest intact durable record (file %d offset %d ver %d) holds %q", kd, trunc(string(r.val), 30), newest.Chunk, newest.Rec.Off, newest.Rec.Ver, trunc(string(newest.Val), 30)))
 			return
 		}
+	}
+	if second && issued2 != nil && x.viol == nil {
+		s2 := *s
+		s2.Kind2 = killed2
+		for _, l := range issued2 {
+			s2.Ops2 += len(l)
+		}
+		x.out.fault("second-" + killed2[:strings.IndexAny(killed2+"@:", "@:")])
+		x.out.probe("second-crash-recovered")
+		c.recoverGen(&s2, 2, issued2)
+		if x.viol != nil && !strings.HasPrefix(x.viol.Sub, "second-crash") {
+			x.viol.Sub = "second-crash/" + x.viol.Sub
+		}
+	}
+}
+
+// secondLife runs in the recovered process: a few more operations, then a second kill.
+func (c *crashExec) secondLife(g *Gen, sim2 *Sim, cl *PClient, rr *Rng, pIssued *[][]issued, pHow *string) {
+	x := c.x
+	plan := x.plan
+	issued2 := make([][]issued, len(plan.Keys))
+	*pIssued = issued2
+	*pHow = "kill-at-end"
+	var served []int
+	for k, km := range x.m.Keys {
+		if !km.Unserved && !km.Collide {
+			served = append(served, k)
+		}
+	}
+	if len(served) == 0 {
+		return
+	}
+	// kill at the n-th file-system mutation of the second life (0 = at its end, nothing torn)
+	killAt := int64(0)
+	if rr.Bool(1, 2) {
+		killAt = int64(rr.Range(1, 5))
+	}
+	tear := rr.Bool(1, 2)
+	var seen int64
+	sim2.OnFS = func(g *Gen, ev *simrt.FSEvent) {
+		seen++
+		if killAt == 0 || seen != killAt {
+			return
+		}
+		*pHow = "kill-before-" + simrt.FSKindName(ev.Kind) + ":" + fileClass(ev.Path)
+		if tear && ev.Kind == simrt.FSWrite && strings.HasSuffix(ev.Path, ".data") && len(ev.Data) > 1 {
+			cut := []int{1, recHdr - 1, recHdr + 1, 256, len(ev.Data) / 2}[rr.Intn(5)]
+			if cut >= len(ev.Data) {
+				cut = len(ev.Data) - 1
+			}
+			ev.WritePrefix(cut)
+			*pHow = fmt.Sprintf("kill-inside-data-write@%d", cut)
+		}
+		g.W.Exit(simrt.StatusKilled, "second kill")
+	}
+	n := rr.Range(2, 9)
+	for i := 0; i < n; i++ {
+		k := served[rr.Intn(len(served))]
+		key := string(plan.Keys[k])
+		id := 700000 + i
+		switch rr.Weighted([]int{50, 10, 22, 6, 12}) {
+		case 0:
+			spec := ValSpec{Class: rr.Pick(VConst, VText, VRandom), Len: rr.Pick(10, 10, 40, 200, 230, 700), Seed: uint32(rr.U64())}
+			if int64(spec.Len) > plan.Cfg.BodyMax {
+				spec.Len = int(plan.Cfg.BodyMax)
+			}
+			val := makeValue(spec, id)
+			issued2[k] = append(issued2[k], issued{ID: id, Val: val})
+			cl.Do(cmdSet("set", key, 0, 0, val, false))
+		case 1:
+			issued2[k] = append(issued2[k], issued{ID: id, Tomb: true})
+			cl.Do(cmdDelete(key))
+		case 2:
+			g.W.WaitIdle()
+			g.H.VerifFlush(true)
+			g.W.WaitIdle()
+		case 3:
+			g.H.VerifDumpHints()
+		case 4:
+			g.W.Advance(time.Duration(rr.Pick(1, 2, 6, 61)) * time.Second)
+		}
+		x.out.probe("second-life-op")
+	}
+	if rr.Bool(2, 3) {
+		g.W.WaitIdle()
+		g.H.VerifFlush(true)
+		g.W.WaitIdle()
 	}
 }
 
